@@ -311,7 +311,7 @@ REGISTRY["C09"] = {
         {"name": "TestC09Tracer", "checks": {"quick": 250, "thorough": 20000}, "shards": {"quick": 12, "thorough": 16}, "gomaxprocs": [4, 2, 16, 1]},
         {"name": "TestC09Engine", "checks": {"quick": 120, "thorough": 4000}, "shards": {"quick": 8, "thorough": 16}, "gomaxprocs": [4, 2, 16, 1]},
         {"name": "TestC09CancelledStart", "checks": {"quick": 60, "thorough": 2000}, "shards": {"quick": 4, "thorough": 16}, "gomaxprocs": [4, 2, 16, 1]},
-        {"name": "TestC09CancelledSet", "checks": {"quick": 60, "thorough": 1500}, "shards": {"quick": 4, "thorough": 8}, "gomaxprocs": [4, 1, 2, 16]},
+        {"name": "TestC09CancelledSet", "checks": {"quick": 60, "thorough": 500}, "shards": {"quick": 4, "thorough": 8}, "gomaxprocs": [4, 1, 2, 16]},
     ],
 }
 
